@@ -397,7 +397,9 @@ def judge(case) -> Outcome:
         # its reported differences must be small exactly when the derivatives are right
         gd = np.asarray(cd['gdiff'], dtype=float)
         hd = np.asarray(cd['hdiff'], dtype=float)
-        if gd.shape == G.shape and np.all(np.isfinite(gd)) and not np.all(np.abs(gd) <= 1e-3 * (Gs + Hs)):
+        # forward differences with step 1e-7: truncation ~ step x curvature, cancellation ~ eps |f| / step
+        fd_noise = 1e-3 * (Gs + Hs) + 1e-7 * float(np.sum(np.abs(f_ref)))
+        if gd.shape == G.shape and np.all(np.isfinite(gd)) and not np.all(np.abs(gd) <= fd_noise):
             out.fail(prefix + 'check_derivatives:gdiff',
                      f'check_derivatives reports gradient differences {gd.tolist()} although the gradient is right' + where)
         if hd.shape == H.shape and np.all(np.isfinite(hd)) and not np.all(np.abs(hd) <= 1e-2 * (Hs + Gs) * 10):
@@ -605,7 +607,8 @@ def strat_integrals(draw, tier):
         dtypes.append(t)
     info2 = dict(info)
     info2['real'] = list(info['real']) + placeholders + placeholders
-    g = gen.TreeGen(draw, info2, max_betas=3, max_nodes=18, differentiable=True, logit=info.get('choice') is not None)
+    # no logit inside the integral: draws in logit availabilities are a separate finding of C10
+    g = gen.TreeGen(draw, info2, max_betas=3, max_nodes=18, differentiable=True, logit=False)
     g.not_in_linutil = set(placeholders)
     inner = g.real(draw(st.integers(1, 3)))
     mapping = {p_: (dnames[i], dtypes[i]) for i, p_ in enumerate(placeholders)}
@@ -717,6 +720,12 @@ def judge_integrals(case) -> Outcome:
     # quadrature accuracy for Integrate (the engine uses a fixed-node rule), machine accuracy for Monte-Carlo
     rt = 1e-5 if mode == 'integrate' else RTOL
     feats = features(case, root)
+    try:
+        feats |= numeric_features(case, root, point, names)
+    except Exception:  # sub-trees with draws cannot be evaluated on their own: structural tags only
+        for node in refsem.walk(root, case['shared']):
+            if node[0] == 'PowC' and float(node[2]) == 2.0 and any(m_[0] in ('Beta', 'LinUtil') for m_ in refsem.walk(node[1], case['shared'])):
+                feats.add('square_of_curved_child')
     if shared_under_value_only_context(case, root):
         feats.add('shared_subtree_also_under_comparison')
     prefix = ''.join(f'[{f}]' for f in sorted(feats)) + f'{mode}:'
